@@ -672,6 +672,62 @@ func decodeStrict(b []byte, v any) error {
 	return d.Decode(v)
 }
 
+// one posting list handed to the commander the way the API controllers do it; the answer classified
+func txDirectSubmit(ctx context.Context, e *txEngine, txData ledger.TransactionData) J {
+	tx, err := e.cmd.CreateTransaction(ctx, command.Parameters{}, ledger.TxToScriptData(txData, false))
+	if err != nil {
+		cls, detail := "rejected", "other"
+		switch {
+		case machine.IsInsufficientFundError(err):
+			cls, detail = "insufficient_funds", "insufficient"
+		case command.IsInvalidTransactionError(err, command.ErrInvalidTransactionCodeCompilationFailed):
+			detail = "compilation"
+		case command.IsInvalidTransactionError(err, command.ErrInvalidTransactionCodeNoPostings):
+			detail = "no-postings"
+		case command.IsInvalidTransactionError(err, command.ErrInvalidTransactionCodeNoScript):
+			detail = "no-script"
+		case command.IsInvalidTransactionError(err, command.ErrInvalidTransactionCodeConflict):
+			detail = "conflict"
+		case command.IsErrMachine(err):
+			detail = "machine"
+		}
+		return J{"err": cls, "detail": detail}
+	}
+	return J{"rawtx": tx}
+}
+
+// the same list as a POST /{ledger}/transactions of the real v2 router over a Ledger that forwards to the commander
+func txV2Submit(ctx context.Context, e *txEngine, body []byte) J {
+	fl := &txLedger{fakeLedger: &fakeLedger{}, cmd: e.cmd}
+	h := v2.NewRouter(&txBackend{fakeBackend: fakeBackend{l: fl.fakeLedger}, l: fl}, &health.HealthController{}, metrics.NewNoOpRegistry(), auth.NewNoAuth())
+	req := httptest.NewRequest(http.MethodPost, "/l0/transactions", bytes.NewReader(body)).WithContext(ctx)
+	req.Header.Set("Content-Type", "application/json")
+	rec := httptest.NewRecorder()
+	h.ServeHTTP(rec, req)
+	status, resp := rec.Code, rec.Body.Bytes()
+	if status != http.StatusOK {
+		var e struct {
+			ErrorCode string `json:"errorCode"`
+		}
+		_ = decodeStrict(resp, &e)
+		if e.ErrorCode == "" {
+			e.ErrorCode = "HTTP" + strconv.Itoa(status)
+		}
+		return J{"err": txErrClass(e.ErrorCode), "detail": e.ErrorCode, "status": status}
+	}
+	var r struct {
+		Data *txJSON `json:"data"`
+	}
+	if err := decodeStrict(resp, &r); err != nil || r.Data == nil {
+		return J{"err": "undecodable-response", "detail": string(resp), "status": status}
+	}
+	tx, err := r.Data.toTx()
+	if err != nil {
+		return J{"err": "undecodable-response", "detail": err.Error(), "status": status}
+	}
+	return J{"rawtx": tx, "status": status}
+}
+
 func execTxScript(in J) J {
 	t := parseTxIn(in)
 	out := J{}
@@ -718,28 +774,7 @@ func execTxScript(in J) J {
 	}
 
 	// (b1) straight into the commander
-	run("direct", func(e *txEngine) J {
-		tx, err := e.cmd.CreateTransaction(ctx, command.Parameters{}, ledger.TxToScriptData(txData, false))
-		if err != nil {
-			cls, detail := "rejected", "other"
-			switch {
-			case machine.IsInsufficientFundError(err):
-				cls, detail = "insufficient_funds", "insufficient"
-			case command.IsInvalidTransactionError(err, command.ErrInvalidTransactionCodeCompilationFailed):
-				detail = "compilation"
-			case command.IsInvalidTransactionError(err, command.ErrInvalidTransactionCodeNoPostings):
-				detail = "no-postings"
-			case command.IsInvalidTransactionError(err, command.ErrInvalidTransactionCodeNoScript):
-				detail = "no-script"
-			case command.IsInvalidTransactionError(err, command.ErrInvalidTransactionCodeConflict):
-				detail = "conflict"
-			case command.IsErrMachine(err):
-				detail = "machine"
-			}
-			return J{"err": cls, "detail": detail}
-		}
-		return J{"rawtx": tx}
-	})
+	run("direct", func(e *txEngine) J { return txDirectSubmit(ctx, e, txData) })
 
 	httpRun := func(name string, mk func(b backend.Backend) http.Handler, url string, body []byte, dec func(status int, resp []byte) J) {
 		run(name, func(e *txEngine) J {
